@@ -1,0 +1,118 @@
+//! `SendBuffer` executor (component `sbuf`).
+//!
+//! Written bytes are the *ground stream*: the byte at absolute stream offset `o` is
+//! `(o * 7 + 3) % 251`, so both sides of the comparison know every byte without transmitting it.
+//!
+//! ```text
+//! sbuf write <n>            one SendBuffer::write of the next n ground bytes (n <= 65536)   -> ok | <state>
+//! sbuf poll <max_len>       poll_transmit                                  -> ok <start> <end> <encode_length> | <state>
+//! sbuf get <a> <b>          get(a..b)                                      -> ok <hex>
+//! sbuf ack <a> <b>          ack(a..b)                                      -> ok | <state>
+//! sbuf retransmit <a> <b>   retransmit(a..b)                               -> ok | <state>
+//! sbuf zrtt                 retransmit_all_for_0rtt                        -> ok | <state>
+//! sbuf q                    is_fully_acked, has_unsent_data, offset        -> ok <bool> <bool> <offset>
+//! sbuf unacked              unacked()                                      -> ok <n>
+//! <state> = o=<offset> ul=<unacked_len> us=<unsent> a=<acks> r=<retransmits> s=<segment lengths> h=<hash of all buffered bytes>
+//! ```
+use bytes::Bytes;
+
+use super::{BAD, Comp, hex, num};
+use crate::connection::send_buffer::SendBuffer;
+
+/// byte of the ground stream at absolute offset `o`
+pub(super) fn ground(o: u64) -> u8 {
+    (((o % 251) * 7 + 3) % 251) as u8
+}
+
+pub(super) fn ranges(rs: &[std::ops::Range<u64>]) -> String {
+    if rs.is_empty() {
+        return "-".into();
+    }
+    rs.iter()
+        .map(|r| format!("{}..{}", r.start, r.end))
+        .collect::<Vec<_>>()
+        .join(",")
+}
+
+pub(super) struct SbufC(SendBuffer);
+
+impl SbufC {
+    pub(super) fn new() -> Self {
+        Self(SendBuffer::new())
+    }
+
+    fn state(&self) -> String {
+        let (lens, all, unacked_len, offset, unsent, acks, retransmits) = self.0.verif_state();
+        let mut h: u32 = 0;
+        for b in &all {
+            h = h.wrapping_mul(31).wrapping_add(*b as u32);
+        }
+        let lens = if lens.is_empty() {
+            "-".to_string()
+        } else {
+            lens.iter()
+                .map(|l| l.to_string())
+                .collect::<Vec<_>>()
+                .join(",")
+        };
+        format!(
+            "| o={offset} ul={unacked_len} us={unsent} a={} r={} s={lens} h={h}",
+            ranges(&acks),
+            ranges(&retransmits)
+        )
+    }
+}
+
+impl Comp for SbufC {
+    fn exec(&mut self, w: &[&str]) -> String {
+        match w {
+            ["write", n] => {
+                let Some(n) = num(n) else { return BAD.into() };
+                if n > 65536 {
+                    return BAD.into();
+                }
+                let o = self.0.offset();
+                let data: Vec<u8> = (0..n).map(|i| ground(o + i)).collect();
+                self.0.write(Bytes::from(data));
+                format!("ok {}", self.state())
+            }
+            ["poll", m] => {
+                let Some(m) = num(m) else { return BAD.into() };
+                let (r, enc) = self.0.poll_transmit(m as usize);
+                format!("ok {} {} {enc} {}", r.start, r.end, self.state())
+            }
+            ["get", a, b] => {
+                let (Some(a), Some(b)) = (num(a), num(b)) else {
+                    return BAD.into();
+                };
+                format!("ok {}", hex(self.0.get(a..b)))
+            }
+            ["ack", a, b] => {
+                let (Some(a), Some(b)) = (num(a), num(b)) else {
+                    return BAD.into();
+                };
+                self.0.ack(a..b);
+                format!("ok {}", self.state())
+            }
+            ["retransmit", a, b] => {
+                let (Some(a), Some(b)) = (num(a), num(b)) else {
+                    return BAD.into();
+                };
+                self.0.retransmit(a..b);
+                format!("ok {}", self.state())
+            }
+            ["zrtt"] => {
+                self.0.retransmit_all_for_0rtt();
+                format!("ok {}", self.state())
+            }
+            ["q"] => format!(
+                "ok {} {} {}",
+                self.0.is_fully_acked(),
+                self.0.has_unsent_data(),
+                self.0.offset()
+            ),
+            ["unacked"] => format!("ok {}", self.0.unacked()),
+            _ => BAD.into(),
+        }
+    }
+}
